@@ -52,7 +52,8 @@ KeyT(p, i) == p.oskeys[i].T
 MonInit(p) ==
   [p |-> p,
    held |-> {},          \* indices of one-shot keys physically down (by arrival)
-   chain |-> {},         \* indices of one-shot keys tapped/pressed since the activation began
+   chain |-> {},         \* indices of one-shot keys tapped/pressed since the activation began (superset when uncertain)
+   sure |-> {},          \* the one-shot keys that are certainly part of the current activation
    el |-> 0,             \* ticks since the last one-shot press arrived (capped)
    curT |-> p.T,         \* timeout of the most recently pressed one-shot key
    sharp |-> FALSE,      \* the activation chain is in the sharp zone
@@ -83,18 +84,27 @@ MonIn(m, r) ==
                  \* active key ends it in the pcancel variants (O6)
                  \* in the sharp zone a press arriving T or more ticks after the previous one-shot
                  \* press is processed on the tick the previous activation expires: a fresh activation
-                 LET over == m.ended = "yes" \/ (m.sharp /\ ~m.used /\ m.el >= m.curT)
+                 \* press variants: once another key was pressed after the activation, the one-shot is over by the time a later
+                 \* one-shot press is processed (events are processed in arrival order)
+                 LET over == m.ended = "yes" \/ (m.sharp /\ ~m.used /\ m.el >= m.curT) \/ (IsPress(p) /\ m.used)
                      repress == IsPcancel(p) /\ i \in m.chain /\ ~over
                      surelyExt == ~over /\ m.rsharp /\ m.ended = "no" /\ m.rel + m.lagq < m.curT
                  IN
                  IF repress
-                 THEN [m0 EXCEPT !.held = @ \cup {i}, !.sharp = FALSE, !.el = 0, !.plain = @ \ {i}, !.rsharp = FALSE,
-                                 !.ended = IF m.ended = "no" /\ m.sharp /\ inSync THEN "yes" ELSE "maybe"]
+                 THEN \* outside the sharp zone the previous activation may have expired before this press is processed: then it
+                      \* is a fresh activation, not a cancellation, and keys pressed earlier no longer count
+                      LET certain == m.ended = "no" /\ m.sharp /\ inSync IN
+                      [m0 EXCEPT !.held = @ \cup {i}, !.sharp = FALSE, !.el = 0, !.plain = @ \ {i}, !.rsharp = FALSE,
+                                 !.afterAct = IF certain THEN @ ELSE {},
+                                 !.maybeAct = IF certain THEN @ ELSE @ \cup m.afterAct,
+                                 !.sure = IF certain THEN @ ELSE {},
+                                 !.ended = IF certain THEN "yes" ELSE "maybe"]
                  ELSE [m0 EXCEPT !.held = @ \cup {i}, !.plain = @ \cup {i}, !.curT = KeyT(p, i),
                                  !.rel = 0 - m.lagq,
                                  !.rsharp = IF over THEN m.lastIdle /\ m.quiet > p.red /\ m.pend = <<>> /\ m.lagq = 0
                                             ELSE m.rsharp,
                                  !.chain = IF over THEN {i} ELSE @ \cup {i},
+                                 !.sure = IF over \/ ~surelyExt THEN {i} ELSE @ \cup {i},
                                  \* keys pressed since the activation began stay "after the activation" when a further
                                  \* one-shot key certainly extends it (their release still ends a release-variant one-shot);
                                  \* when the previous activation may have expired before this press is processed (a fresh
@@ -116,7 +126,7 @@ MonIn(m, r) ==
                 m1 == [m0 EXCEPT !.used = TRUE, !.afterAct = IF m.ended = "yes" THEN @ ELSE @ \cup {r.c},
                                  !.sharp = FALSE]
             IN IF o >= 0 THEN [m1 EXCEPT !.pend = Append(@, [o |-> o, clean |-> clean, mod |-> mod,
-                                                            qs |-> QOf(p, m.chain)])]
+                                                            qs |-> QOf(p, m.sure)])]
                ELSE m1
        ELSE \* release of an other key
             IF ~IsPress(p) /\ r.c \in m.afterAct /\ m.ended # "yes"
@@ -178,6 +188,7 @@ MonTick(m, out, idle, cb) ==
                   !.rsharp = m2.rsharp /\ ~expired /\ ~stable,
                   !.ended = IF expired \/ stable THEN "yes" ELSE m2.ended,
                   !.chain = IF expired \/ stable THEN {} ELSE m2.chain,
+                  !.sure = IF expired \/ stable THEN {} ELSE m2.sure,
                   !.maybeAct = IF expired \/ stable THEN {} ELSE m2.maybeAct,
                   !.quiet = IF out = <<>> THEN OMin(m2.quiet + 1, p.red + 1) ELSE 0]
 
